@@ -665,10 +665,78 @@ def disc_schema_table_rule(cx, rep, rid, which="schema"):
                     stack.append((F.hir[tg]["body"], F.hir[tg]))
         return None
 
+    def mode_enum(ty):
+        """a fieldless enum of the project: a mode parameter (b92: `NarrowDiscriminator::{Always, WhenShared}` in place of a bool)"""
+        a = F.adts.get((ty or "").replace("&", "").replace("mut ", "").strip())
+        return a is not None and a.get("kind") == "Enum" and bool(a.get("variants")) and all(not v_.get("fields") for v_ in a["variants"])
+
+    def imm_lets(tree):
+        out = {}
+        for x in RF.walk(tree["body"]):
+            if x["k"] == "LetStmt" and x.get("init") is not None and x["pat"].get("k") == "P.Binding" and not x["pat"].get("mut"):
+                out[x["pat"].get("lid")] = x["init"]
+        return out
+
+    def value_of(e, env, lets, depth=0):
+        """what is known of a mode expression: True / False / ("variant", path of a unit variant) / None (unknown).
+        env: parameter lid -> value, for the function the expression stands in; immutable lets are read through; a
+        `match` (also `matches!`) on a known variant is the body of the arm it selects."""
+        e = RF.strip_block(e)
+        k = e["k"]
+        if k in ("AddrOf", "DropTemps", "Paren") or (k == "Unary" and e.get("op") == "Deref"):
+            return value_of(e["e"], env, lets, depth)
+        if k == "Lit":
+            return (str(e.get("v", e.get("value", ""))).lower() == "true") if e.get("lit") == "bool" else None
+        if k == "Path":
+            if e.get("res") == "local":
+                if e.get("lid") in env:
+                    return env[e["lid"]]
+                if e.get("lid") in lets and depth < 4:
+                    return value_of(lets[e["lid"]], env, lets, depth + 1)
+                return None
+            if e.get("res") == "def" and "::" in (e.get("def") or "") and mode_enum(e["def"].rsplit("::", 1)[0]):
+                return ("variant", e["def"])
+            return None
+        if k == "Unary" and e.get("op") == "Not":
+            v = value_of(e["e"], env, lets, depth)
+            return (not v) if isinstance(v, bool) else None
+        if k == "Binary" and e.get("op") in ("And", "Or", "Eq", "Ne"):
+            l, r = value_of(e["l"], env, lets, depth), value_of(e["r"], env, lets, depth)
+            if e["op"] == "And":
+                return False if (l is False or r is False) else (True if (l is True and r is True) else None)
+            if e["op"] == "Or":
+                return True if (l is True or r is True) else (False if (l is False and r is False) else None)
+            if isinstance(l, tuple) and isinstance(r, tuple):
+                return (l == r) == (e["op"] == "Eq")
+            return None
+        if k == "If" and e.get("else") is not None:
+            c = value_of(e["cond"], env, lets, depth)
+            return value_of(e["then"] if c else e["else"], env, lets, depth) if isinstance(c, bool) else None
+        if k == "Match":
+            arm = selected_arm(e, env, lets, depth)
+            return value_of(arm["body"], env, lets, depth) if arm is not None else None
+        return None
+
+    def selected_arm(m, env, lets, depth=0):
+        """the arm a `match` on a mode takes when the variant of the scrutinee is known (None: not known)"""
+        sv = value_of(m["scrut"], env, lets, depth)
+        if not isinstance(sv, tuple):
+            return None
+        for arm in m.get("arms") or []:
+            pats = arm["pat"]["pats"] if arm["pat"]["k"] == "P.Or" else [arm["pat"]]
+            if any(p_["k"] in ("P.Wild", "P.Binding") or p_.get("def") == sv[1] for p_ in pats):
+                return arm if arm.get("guard") is None else None
+            if any(not p_.get("def") for p_ in pats):
+                return None      # a pattern this reading does not understand
+        return None
+
     def flag_guards(hit, tree):
-        """bool-typed PARAMETERS (of the function or of a closure) read by the conditions the narrowing call runs under"""
+        """mode PARAMETERS (of the function or of a closure; bool-typed, or a fieldless project enum) read by the conditions
+        the narrowing call runs under: name -> the expressions that have to hold for the call to run whatever the data
+        (the flag itself; the `match` / comparison that reads the mode; ("arm", match, arm) when the call stands in an arm
+        of a `match` on the mode)"""
         if tree is None:
-            return []
+            return {}
         parents = {}
         for x in RF.walk(tree["body"]):
             for c_ in RF.children(x):
@@ -688,22 +756,44 @@ def disc_schema_table_rule(cx, rep, rid, which="schema"):
         for x in RF.walk(tree["body"]):
             if x["k"] == "LetStmt" and x.get("init") is not None and x["pat"].get("k") == "P.Binding":
                 lets[x["pat"].get("lid")] = x["init"]
-        bad = []
+        bad = {}
+
+        def mode_param(z):
+            while z["k"] in ("AddrOf", "DropTemps", "Paren") or (z["k"] == "Unary" and z.get("op") == "Deref"):
+                z = z["e"]
+            return z if z["k"] == "Path" and z.get("res") == "local" and z.get("lid") in params and mode_enum(z.get("ty")) else None
 
         def scan(e, depth=0):
+            readers = {}     # id(mode parameter node) -> the bool-valued expression that reads it
+            for z in RF.walk(e):
+                if z["k"] == "Match" and mode_param(z["scrut"]) is not None:
+                    readers.setdefault(id(mode_param(z["scrut"])), z)
+                elif z["k"] == "Binary" and z.get("op") in ("Eq", "Ne"):
+                    for side in (z["l"], z["r"]):
+                        if mode_param(side) is not None:
+                            readers.setdefault(id(mode_param(side)), z)
             for z in RF.walk(e):
                 if z["k"] == "Path" and z.get("res") == "local" and (z.get("ty") or "").replace("&", "").strip() == "bool":
                     if z.get("lid") in params:
-                        bad.append(z.get("name"))
+                        bad.setdefault(z.get("name"), []).append(z)
                     elif z.get("lid") in lets and depth < 3:
                         scan(lets[z["lid"]], depth + 1)
+                elif mode_param(z) is z:
+                    # a mode enum read by the condition: what has to hold is the test that reads it
+                    bad.setdefault(z.get("name"), []).append(readers.get(id(z), z))
         cur = hit
         while id(cur) in parents:
             par = parents[id(cur)]
             if par["k"] == "If" and not any(z is cur for z in RF.walk(par["cond"])):
                 scan(par["cond"])
+            if par["k"] == "Arm" and id(par) in parents and parents[id(par)]["k"] == "Match" and cur is not par.get("guard"):
+                m_ = parents[id(par)]
+                if mode_param(m_["scrut"]) is not None:
+                    bad.setdefault(mode_param(m_["scrut"]).get("name"), []).append(("arm", m_, par))
+                    if par.get("guard") is not None:
+                        scan(par["guard"])
             cur = par
-        return sorted(set(bad))
+        return bad
     n = 0
     for g in sorted(F.hir):
         f = F.fns.get(g)
@@ -741,32 +831,60 @@ def disc_schema_table_rule(cx, rep, rid, which="schema"):
                 continue
             if hit is not None:
                 otree = owner_of.get(id(hit))
-                flags = flag_guards(hit, otree)
+                guards = flag_guards(hit, otree)
+                flags = sorted(guards)
                 if flags and otree is not None and otree is not F.hir[g]:
                     # a shared table builder with a mode parameter is fine when the SCHEMA table is built with the
-                    # literal `true`: judge the flag at the calls that produce the last argument
-                    pnames = [b_.get("name") for p_ in otree.get("params", []) for b_ in RF.walk(p_) if b_["k"] == "P.Binding"]
+                    # literal `true`: judge the flag at the calls that produce the last argument.
+                    # b92 (round 11, Z3): the mode may be an enum (`NarrowDiscriminator::Always` at the schema-table
+                    # call) that the builder turns into the flag of a further helper (`let narrow = match narrowing
+                    # { Always => true, WhenShared => carriers.len() > 1 }; .. variant_case(.., narrow)`).  The values
+                    # of the mode parameters are therefore carried from the calls that produce the last argument down
+                    # the helpers that lead to the narrowing call (not back through the printer's own recursion), and
+                    # every condition on a flag has to hold under every environment the helper is entered with.
                     ogid = next((k_ for k_, v_ in F.hir.items() if v_ is otree), None)
-                    still = []
-                    for fl in flags:
-                        if fl not in pnames:
-                            still.append(fl)
-                            continue
-                        idx = pnames.index(fl)
-                        lit_true = []
-                        for r in roots:
-                            for c_ in RF.walk(r):
-                                if c_["k"] in ("Call", "MethodCall") and F._callee_gid(f.crate, (c_.get("callee") if c_["k"] == "Call" else (c_.get("resolved") or c_.get("callee"))) or "") == ogid:
-                                    args_ = ([c_["recv"]] if c_["k"] == "MethodCall" else []) + list(c_.get("args") or [])
-                                    a_ = args_[idx] if idx < len(args_) else None
-                                    if a_ is not None and a_["k"] == "Path" and a_.get("res") == "local":
-                                        inits_ = [st_["init"] for st_ in RF.walk(body) if st_["k"] == "LetStmt" and st_.get("init") is not None and st_["pat"].get("k") == "P.Binding" and st_["pat"].get("lid") == a_.get("lid") and not st_["pat"].get("mut")]
-                                        if len(inits_) == 1:
-                                            a_ = inits_[0]
-                                    lit_true.append(a_ is not None and a_["k"] == "Lit" and str(a_.get("value", a_.get("v", ""))).lower() == "true")
-                        if not lit_true or not all(lit_true):
-                            still.append(fl)
-                    flags = still
+
+                    def callees(e):
+                        for c_ in RF.walk(e):
+                            if c_["k"] in ("Call", "MethodCall"):
+                                tg_ = F._callee_gid(f.crate, (c_.get("callee") if c_["k"] == "Call" else (c_.get("resolved") or c_.get("callee"))) or "")
+                                if tg_ in F.hir and tg_ != g:
+                                    yield c_, tg_
+                    leads = {ogid: True}     # helper -> the narrowing helper is reached from it without re-entering the builder g
+
+                    def leads_to(tg_):
+                        if tg_ not in leads:
+                            leads[tg_] = False
+                            leads[tg_] = any(leads_to(t2) for _, t2 in callees(F.hir[tg_]["body"]))
+                        return leads[tg_]
+                    entered, seen_env = [], set()
+                    work = [(r, {}, imm_lets(F.hir[g])) for r in roots]
+                    while work:
+                        e_, env_, lets_ = work.pop()
+                        for c_, tg_ in callees(e_):
+                            if not leads_to(tg_):
+                                continue
+                            args_ = ([c_["recv"]] if c_["k"] == "MethodCall" else []) + list(c_.get("args") or [])
+                            cenv = {}
+                            for i_, p_ in enumerate(F.hir[tg_].get("params", [])):
+                                v_ = value_of(args_[i_], env_, lets_) if i_ < len(args_) and p_.get("k") == "P.Binding" else None
+                                if v_ is not None:
+                                    cenv[p_.get("lid")] = v_
+                            if tg_ == ogid:
+                                entered.append(cenv)
+                            key_ = (tg_, tuple(sorted(cenv.items())))
+                            if key_ not in seen_env and len(seen_env) < 64:
+                                seen_env.add(key_)
+                                work.append((F.hir[tg_]["body"], cenv, imm_lets(F.hir[tg_])))
+                    olets = imm_lets(otree)
+                    oparams = {p_.get("name") for p_ in otree.get("params", []) if p_.get("k") == "P.Binding"}
+
+                    def holds(atom, env_):
+                        if isinstance(atom, tuple):
+                            return selected_arm(atom[1], env_, olets) is atom[2]
+                        return value_of(atom, env_, olets) is True
+                    flags = [fl for fl in flags
+                             if fl not in oparams or not entered or not all(holds(a_, env_) for env_ in entered for a_ in guards[fl])]
                 rep.ob(rid, "%s/narrowing-unconditional" % f.id.rsplit("::", 1)[-1], not flags,
                        "the entries of the schema table of AnyOfDiscriminatedRuntype are narrowed to their key only when the flag(s) %s hold: whether a variant carries several discriminator literals cannot be read off a count or a mode - for the inputs where the flag is off, a variant listed under two keys is printed twice with the same body, `oneOf` has two matching branches for its values and the schema rejects what validate() accepts" % flags,
                        "%s:%s" % (f.file, hit["line"]), sample={"fn": f.id, "flags": flags})
